@@ -39,6 +39,10 @@ def cases(tier, seed):
     for fmt in ("default", "json"):
         for keep in (1, 2):
             out.append({"mode": "binary_rerun", "fmt": fmt, "keep": keep})
+        # the header's own command line is read back wherever the dedupe command is started: `group` run with a relative
+        # --base-dir (and relative input paths), the report used from another working directory
+        for basedir in ("data", "./data/", "../proj/data"):
+            out.append({"mode": "binary_basedir", "fmt": fmt, "basedir": basedir})
     return out
 
 
@@ -84,6 +88,36 @@ def evaluate_binary_rerun(case):
             "outcome": "binary", "sample": {"case": case}}
 
 
+def evaluate_binary_basedir(case):
+    viol = []
+    with C.Scratch() as sc:
+        tree = [{"p": "proj/data/%s/f%d" % (d, i), "k": "file", "c": ["base", 60 + i, i + 1]} for i in range(3) for d in ("a", "b")]
+        C.make_tree(sc.tree, tree)
+        proj = os.path.join(sc.tree, "proj")
+        other = os.path.join(sc.root, "somewhere else")
+        os.makedirs(other, exist_ok=True)
+        args = ["group", "--base-dir", case["basedir"], "."] + (["-f", "json"] if case["fmt"] == "json" else [])
+        rc, report, err, to = C.fclones(args, sc, cwd=proj)
+        if rc != 0 or to:
+            raise C.MachineryError("group --base-dir failed: %s" % err[-300:])
+        expected = set()
+        for g in D.report_groups(report).groups:
+            expected.update(g["paths"][1:])
+        feat = {"kind": "header_not_portable", "format": case["fmt"], "what": "relative_base_dir_other_cwd"}
+        for where in (proj, other, "/"):
+            r = D.run_dedupe(sc, "remove", [], report, dry_run=True, cwd=where)
+            if r["rc"] != 0:
+                viol.append(dict(feat, kind="read_error", detail="report of `group --base-dir %s .` (run in %s) used from %s: %s" % (
+                    case["basedir"], proj, where, r["err"][-300:])))
+                continue
+            got = set(o["file"] for o in D.parse_script(r["out"]))
+            if got != expected:
+                viol.append(dict(feat, detail="used from %s: dry run names %r beyond / misses %r" % (
+                    where, sorted(got - expected)[:3], sorted(expected - got)[:3])))
+    return {"violations": viol, "evaluations": 3, "counters": {"nontrivial": 1, "binary_cases": 1, "binary_paths": len(expected)},
+            "outcome": "binary", "sample": {"case": case}}
+
+
 def evaluate_binary(case):
     """Ties the in-process round trip to what the dedupe commands act on: the files named by `remove --dry-run`
     must be exactly the reported paths minus the first of each group, byte for byte."""
@@ -121,6 +155,8 @@ def evaluate_binary(case):
 def evaluate(case):
     if case.get("mode") == "binary_rerun":
         return evaluate_binary_rerun(case)
+    if case.get("mode") == "binary_basedir":
+        return evaluate_binary_basedir(case)
     if case.get("mode") == "binary":
         return evaluate_binary(case)
     if "one" in case:
